@@ -324,6 +324,9 @@ func vfBuildStateE(env *vfEnv, key [16]byte, H int, W int, holderProto int, wait
 		c.Count = vfU16(p + ".count")
 		c.Rcount = vfU8(p + ".rcount")
 		c.TimeoutFlag = vfU16(p+".tflag") & 0x0010
+		if vfFreeWaiter {
+			c.TimeoutFlag |= protocol.TIMEOUT_FLAG_LOCK_WAIT_WHEN_UNLOCK
+		}
 		c.Timeout = uint16(4 + 5*i) // the first queued request times out at +5 s, the second at +10 s
 		c.Expried, c.ExpriedFlag = 3, 0x0200
 		n := len(env.replies)
@@ -332,6 +335,9 @@ func vfBuildStateE(env *vfEnv, key [16]byte, H int, W int, holderProto int, wait
 		st.waiterReq = append(st.waiterReq, c.RequestId)
 	}
 	if W > 0 {
+		if st.m == nil {
+			st.m = env.manager(key) // a free key: the manager exists only since the first queued request
+		}
 		st.waiters = vfLiveWaiters(st.m)
 		vfAssume(len(st.waiters) == W)
 	}
